@@ -2209,3 +2209,24 @@ PROPS["C02"]["level_text"] += (" Composition with C07 / C08 (Props/C02Floats.lea
 PROPS["C16"]["partial"] = [x for x in PROPS["C16"]["partial"] if x != "c16_agree_partial restates c16_owned_borrowed"] + [
     "c16_agree_partial is c16_owned_borrowed restated as two iffs (its proof is `rw [c16_owned_borrowed]` + Iff.rfl): it is kept because "
     "other files may refer to it, it is listed in Audit/C16.lean for its axioms only, and it is NOT a separate result (level_text does not count it)"]
+
+# ---- C14: the machine's fallback arms restated one by one (Props/C14Fallbacks.lean; honesty item reworded)
+PROPS["C14"]["lean_targets"] = PROPS["C14"]["lean_targets"][:-1] + ["SJ.Props.C14Fallbacks"] + PROPS["C14"]["lean_targets"][-1:]
+PROPS["C14"]["partial"] = [x for x in PROPS["C14"]["partial"] if not x.startswith("the shape invariant making every remaining model fallback unreachable")] + [
+    "the six fallback arms of the byte-step machine (closeArr / closeObj / endStr default arms, step1 on `.lit []`, `.again` twice in step, "
+    "numValue's outOfFuel) return ORDINARY error codes (ExpectedSomeValue, ExpectedSomeIdent, NumberOutOfRange), so `never taken` is stated "
+    "on the guard pattern of each arm (Arm.taken, Props/C14Fallbacks.lean: c14_no_fallback - no state the run of parseTop dispatches on, "
+    "for any environment and input, matches any of them) and read off the functions (c14_closeArr_live, c14_closeObj_live, "
+    "c14_keyEnd_live, c14_step_live, c14_numValue_live), not on the outcome; that closeArr / closeObj / endStr / numValue are invoked "
+    "only in the modes (and, for numValue, number phases zero / int / frac / exp) named by Arm.taken is by inspection of step1 / stepNum / "
+    "finish, not a theorem; the fallbacks of Model.Typed (only `.fuel`: Props/Typed.lean typed_no_panic), of the stream models and of the "
+    "serializer models are not part of this enumeration"]
+PROPS["C14"]["level_text"] += (" Fallback arms one by one (Props/C14Fallbacks.lean, derived from Proofs/Sound Inv / step1_inv / step_inv, "
+    "Proofs.Earliest.step_lit_ne, c14_again_once and c14_no_fuel_machine without re-proving them): Arm enumerates the six fallback arms of "
+    "Model/Machine.lean with the Rust site each stands for, Arm.taken is the guard pattern of each; c14_no_fallback - for every environment "
+    "(all features, three sources, Value and IgnoredAny targets) and every input p ++ rest, if the machine gets through p into s then "
+    "parseTop continues from s, s satisfies Inv for p, s matches no guard pattern (next byte and end of input), and neither does the "
+    "intermediate state on which a byte that ended a number is dispatched again; c14_no_fallback_dispatched - the same for every state "
+    "step1 is ever evaluated on; c14_closeArr_live / c14_closeObj_live / c14_keyEnd_live / c14_step_live / c14_numValue_live - the live arm "
+    "is the one that runs (a NumberOutOfRange from numValue comes from the converter's outOfRange, never from outOfFuel); examples on "
+    "{\"k\":[tru + e]} and on an ill-shaped state that does match closeArr's pattern.")
